@@ -8,10 +8,26 @@ type nodeHTML struct {
 	token     *Token
 	trimLeft  bool
 	trimRight bool
+
+	// For the TrimBlocks/LStripBlocks options (issue #94): the template the
+	// text belongs to and whether it directly follows/precedes a block tag.
+	tpl         *Template
+	afterBlock  bool
+	beforeBlock bool
 }
 
 func (n *nodeHTML) Execute(ctx *ExecutionContext, writer TemplateWriter) *Error {
 	res := n.token.Val
+	if n.tpl != nil && n.tpl == ctx.executed {
+		// If an application configures pongo2 template to trim_blocks,
+		// the first newline after a template tag is removed automatically (like in PHP).
+		if n.tpl.Options.TrimBlocks && n.afterBlock && len(res) > 0 && res[0] == '\n' {
+			res = res[1:]
+		}
+		if n.tpl.Options.LStripBlocks && n.beforeBlock {
+			res = strings.TrimRight(res, "\t ")
+		}
+	}
 	if n.trimLeft {
 		res = strings.TrimLeft(res, tokenSpaceChars)
 	}
